@@ -94,4 +94,26 @@ def applyChanges (sensors : Nat → Pointing) (e : Engine) : Nat → Pointing :=
     | some c => c.2
     | none => sensors s
 
+/-! ### the order in which a step's observations reach the filters
+
+`saveObservations` keeps the engine's list sorted by (epoch, target, sensor, measurement) since 4ecfeb3; before, the
+list was in job-completion order.  `uid` stands for the content of the record. -/
+
+def recLe (a b : Rec) : Prop :=
+  a.target < b.target ∨ (a.target = b.target ∧ (a.sensor < b.sensor ∨ (a.sensor = b.sensor ∧ a.uid ≤ b.uid)))
+
+instance (a b : Rec) : Decidable (recLe a b) := by unfold recLe; exact inferInstance
+
+def insertRec (r : Rec) : List Rec → List Rec
+  | [] => [r]
+  | d :: l => if recLe r d then r :: d :: l else d :: insertRec r l
+
+def sortRecs : List Rec → List Rec
+  | [] => []
+  | r :: l => insertRec r (sortRecs l)
+
+/-- the observations a target's filter is handed: the engine's list restricted to that target, in the engine's order -/
+def handedTo (sorted : Bool) (e : Engine) (t : Nat) : List Rec :=
+  ((if sorted then sortRecs e.obs else e.obs).filter (·.target == t))
+
 end RV.Engine
